@@ -27,7 +27,7 @@ def scratch():
 
 
 def run_check(d, prop):
-    p = subprocess.run([VERIF + "/bin/mbcheck", "-repo", d + "/repo", "-verif", VERIF, "-out", d + "/ev", "-nocontrols", "-p", prop],
+    p = subprocess.run([os.environ.get("MBCHECK", VERIF + "/bin/mbcheck"), "-repo", d + "/repo", "-verif", VERIF, "-out", d + "/ev", "-nocontrols", "-p", prop],
                        capture_output=True, text=True, env=ENV)
     out = p.stdout + p.stderr
     rules = sorted(set(l.split("rule=")[1].split()[0] for l in out.splitlines() if l.strip().startswith("rule=")))
